@@ -46,6 +46,9 @@ def gen_cases(rng, tier):
             spec = gen_third_party(rng, max_files=3)
             cases.append({"medium": "disk", "read": True, "is_fd": spec["is_fd"], "spec": spec, "sources": [], "old": None, "pad": rng.choice([0xFF, 0x00, 0xE5, "random"]),
                           "trail": rng.choice([0, 0, 1, 7, 300]) if spec["nsides"] == 4 else 0, "flips": rng.choice([0, 0, 0, 2]), "mseed": rng.randint(0, 1 << 30), "verbose": rng.random() < 0.5})
+    # finding F18's witness (Props/C20: C20_tape_extract_keeps_archive_refuted): a tape holding a member named like the archive itself
+    cases.append({"medium": "tape", "read": True, "self_member": True, "sources": [{"arg": "x/IN.K7", "content": {"hex": "68656c6c6f"}}], "old": None,
+                  "trail": 0, "flips": 0, "mseed": 0, "verbose": False})
     cases.append({"medium": "tape", "sources": [{"arg": "b.bin", "content": {"pat": "42", "len": 300}}], "old": 43008})
     cases.append({"medium": "disk", "is_fd": True, "sources": [{"arg": "b.bin", "content": {"pat": "42", "len": 300}}], "old": 1400000})
     cases.append({"medium": "disk", "is_fd": False, "sources": [{"arg": "b.bin", "content": {"pat": "42", "len": 300}}], "old": 2700000})
@@ -65,7 +68,7 @@ def run_read_case(case, ctx):
         rng = random.Random(case["mseed"])
         bad = None
         if tape:
-            arch = "in.k7"
+            arch = "IN.K7" if case.get("self_member") else "in.k7"
             args = []
             for s in case["sources"]:
                 cd.put(s["arg"], materialize(s["content"]))
@@ -97,6 +100,8 @@ def run_read_case(case, ctx):
             if cd.get(arch) != raw:
                 now = cd.get(arch)
                 bad = {"the archive changed during": act, "lens": [len(raw), None if now is None else len(now)], "status": r.get("status")}
+                if tape and act == "-x" and now is not None and any(now == materialize(s["content"]) and os.path.basename(s["arg"]).upper() == os.path.basename(arch).upper() for s in case["sources"]):
+                    bad["overwritten by its own member"] = os.path.basename(arch)
                 break
             if cd.rel(arch) in r["writes"]:
                 bad = {"the archive was opened for writing by": act}
@@ -226,4 +231,13 @@ def summarise(case):
 
 def violation_class(case, detail):
     o = (detail or {}).get("oracle") or {}
-    return [case["medium"]] + sorted(o)[:1]
+    return [case["medium"]] + (["self-member"] if "overwritten by its own member" in o else []) + sorted(o)[:1]
+
+
+def _kf_self_member(case, detail):
+    """F18: a tape extracted beside itself (no --into) while holding a member whose NAME.EXT is the archive's own file name"""
+    o = (detail or {}).get("oracle") or {}
+    return case.get("medium") == "tape" and bool(case.get("read")) and "overwritten by its own member" in o
+
+
+known_predicates = {"tape_member_named_like_the_archive": _kf_self_member}
